@@ -74,6 +74,7 @@ def gen(rng, tier):
             'dup_boundary': rng.random() < 0.4,
             # the recorded columns are tuples and the time column a range (read-only sequences) instead of lists
             'tuple_columns': rng.random() < 0.2,
+            'split_entries': rng.random() < 0.15,
             # a recorded dense signal with a repeated time stamp ([t, old], [t, new]); the library may reject it
             'dup_stamp': [v for v in vars_ if rng.random() < 0.6] if rng.random() < 0.12 else [],
             # recorded signals that end with an explicit "holds forever" sample [inf, last value] (dense offline objects)
@@ -178,7 +179,14 @@ class Host(object):
                 hi = len(s) * (self.step + 1) // self.total
                 if self.sc.get('dup_boundary') and self.step > 0 and lo > 0 and hi > lo:
                     lo -= 1       # transport fault: the batch re-sends the last sample of the previous batch
-                args.append([v, s[lo:hi]])
+                b_ = s[lo:hi]
+                if self.sc.get('split_entries') and len(b_) >= 2:
+                    # a sensor whose messages arrive as two packets is mentioned twice in the same call
+                    args.append([v, b_[:len(b_) // 2]])
+                    args.append([v, b_[len(b_) // 2:]])
+                    self.r.faults['variable_mentioned_twice_in_one_update'] += 1
+                else:
+                    args.append([v, b_])
             out = self.call(lambda *a: M.api('update', self.spec.update, *a), *args)
             self.outs.append(out)
         else:
@@ -309,6 +317,10 @@ def shrinks(sc):
     if sc.get('dup_stamp'):
         c = copy.deepcopy(sc)
         c['dup_stamp'] = []
+        yield c
+    if sc.get('split_entries'):
+        c = copy.deepcopy(sc)
+        c['split_entries'] = False
         yield c
     if k > 1:
         for j in range(k):
